@@ -236,7 +236,11 @@ func (i *Interpreter) ProcessReturnStatement(stmt *ast.ReturnStatement) State {
 	if stmt.ReturnExpression == nil {
 		return BARE_RETURN
 	}
-	return State(stmt.ReturnExpression.String())
+	// Do not use String() of the expression because it includes leading/trailing comments
+	if ident, ok := stmt.ReturnExpression.(*ast.Ident); ok {
+		return State(ident.Value)
+	}
+	return State(stmt.ReturnExpression.GetMeta().Token.Literal)
 }
 
 func (i *Interpreter) ProcessSetStatement(stmt *ast.SetStatement) error {
